@@ -15,7 +15,7 @@ RULE = (
     "unmatched predictions in {254..257, 65534..65537}, labels at the dtype maximum, for uint8/16/32/64) + semantic input "
     "through evaluate() where the approximator picks the smallest dtype. Non-trivial = at least one unmatched prediction or "
     "one matched pair; distinct = hash of (arrays, dtype, matcher)."
-    ' Further families: label values beyond 2^24 / 2^25, also shared between the two sides in another order; widening cases as 2-D Fortran / transposed / strided views; sparse volumes beyond 2^18 / 2^20 / 2^22 voxels incl. a prediction without background whose rest instance carries a reference label.'
+    ' Further families: label values beyond 2^24 / 2^25, also shared between the two sides in another order and in a prediction without any background voxel; widening cases as 2-D Fortran / transposed / strided views; sparse volumes beyond 2^18 / 2^20 / 2^22 voxels incl. a prediction without background whose rest instance carries a reference label.'
 )
 ASSUMPTIONS = ["the label map of a match_instances call is the one returned by the _match_instances call inside it"]
 MINIMUM = {"C04.checked": 1500, "f:C04.fresh_past_255": 20, "f:C04.fresh_past_65535": 4}
@@ -158,6 +158,10 @@ def run(case, ctx):
             refa[8 * k : 8 * k + 6] = b
             pred[8 * k + (k % 2) : 8 * k + 6] = a
         pred[36:38] = pl[4]
+        if i % 4 == 2:
+            # no background voxel in the prediction: the rest is one more instance (smallest or largest label of the map)
+            pred[pred == 0] = [2, base + 2**20 + 1][(i // 4) % 2]
+            ctx.count("f:C04.huge_labels_prediction_without_background")
         ths = {"IOU": [0.5], "DSC": [0.5], "ASSD": [1.0]}
         ctx.count("f:C04.labels_beyond_2^24")
         run_pair(ctx, pred, refa, fam, thresholds=ths, metrics=("IOU",) if i % 2 else ("DSC",))
